@@ -36,8 +36,8 @@ int main(int argc, char **argv)
 	if (rc == 1) {
 		uint8_t buf[256]; size_t got = 0; int r = proto == TLS_protocol_tls13 ? tls13_recv(conn, buf, sizeof buf, &got) : tls_recv(conn, buf, sizeof buf, &got);
 		vt_begin("Data"); vt_int("rc", r); vt_hex("got", buf, r == 1 ? got : 0); vt_end();
-		// VH_RECV_AGAIN: an application that asks once more after a refused record (a retry loop, a second reader): a connection that failed has nothing to deliver
-		for (int i = 0; r != 1 && getenv("VH_RECV_AGAIN") && i < 3; i++) {
+		// VH_RECV_AGAIN: an application that keeps asking, also after a refused record (a retry loop, a second reader): only what the peer wrote as application data is ever delivered
+		for (int i = 0; getenv("VH_RECV_AGAIN") && i < 4; i++) {
 			got = 0; int r2 = proto == TLS_protocol_tls13 ? tls13_recv(conn, buf, sizeof buf, &got) : tls_recv(conn, buf, sizeof buf, &got);
 			vt_begin("Again"); vt_int("rc", r2); vt_int("n", (long)(r2 == 1 ? got : 0)); vt_hex("got", buf, r2 == 1 ? got : 0); vt_end();
 		}
